@@ -57,8 +57,8 @@ PROPS = {
     ),
     'C13': dict(
         units=['seqlib'],
-        not_covered='everything except the six helpers under contract: the multi!/multimulti! kind dispatch, sorted/sorted_by/sorted_on (std sort_by + '
-                    'closures), uniqued/classified_with (std HashSet/HashMap), windowed (VecDeque::iter().cloned()), grouped_by, Zip/ZipLongest/'
+        not_covered='everything except the seven helpers under contract: the multi!/multimulti! kind dispatch, sorted/sorted_by/sorted_on (std sort_by + '
+                    'closures), uniqued/classified_with (std HashSet/HashMap), grouped_by, drop_while_inner (Peekable), Zip/ZipLongest/'
                     'CartesianProduct/Fold/Scan/Merge/Count/Extremum, SeqAndMappedFoldBuiltin, the one-liners registered in initialize, and the '
                     'combinatorial streams; user callbacks are an uninterpreted function of (callee, arguments), effects not modelled',
     ),
@@ -121,11 +121,12 @@ TEXT = {
             'stated preconditions: no arithmetic overflow, no division by zero, no out-of-range cast or index, no reachable '
             'panic!/todo!/unreachable!/expect, and every precondition that encodes a dependency panic (BigInt division by '
             'zero, reciprocal of zero, num-rational pow) is discharged at the builtin closures that call it.'),
-    'C13': ('Verus proves six of the kind-independent sequence helpers of lib.rs against their one-line definitions, for every input length '
+    'C13': ('Verus proves seven of the kind-independent sequence helpers of lib.rs against their one-line definitions, for every input length '
             'and every element type (vstd iterator model): reversed = reverse; prefixes / reversed_prefixes = one (reversed) prefix per length in '
             'order; grouped = consecutive chunks of n with group\' refusing a leftover; take_while_inner = the longest prefix whose elements '
             'all pass, the next element having been tested and failed; filtered = exactly the elements whose test differs from neg, order '
-            'kept (filter / reject); an erroring item or callback is raised. Only these helpers are decided by proof.'),
+            'kept (filter / reject); windowed (window n, n > 0 established by the only caller) = one window per start position, window i being the n consecutive items '
+            'from position i, nothing when the input is shorter than n (the copy `window.iter().cloned().collect()` is a trusted helper); an erroring item or callback is raised. Only these helpers are decided by proof.'),
     'C15': ('Verus proves the two integer-literal kernels of the lexer against positional notation: lex_base_and_emit (behind NrDIGITS, 0x, 0b, 0o) consumes '
             'exactly the longest run of digits below the radix and emits one IntLit whose value is the positional value of that run, for every radix 2..36 and '
             'every length; lex_base_64_and_emit does the same for 64r literals (A-Z a-z 0-9 +- /_). Only these kernels are decided by proof; totality of '
